@@ -47,6 +47,8 @@ ALLN(BNP_DEF, x)
 template <typename T, typename C>
 void direct_bnp(T* a, int n, C c) { switch (n) { ALLN(BNP_CASE, x) default: break; } }
 
+// The direct sortN(a, CSwap cswap = CSwap()) entry points cannot be called with their default argument at all
+// (CS_IfSwap has no default constructor), so only the dispatching sort(begin, end) has a usable default (std::less).
 static long long g_eval = 0, g_nontrivial = 0, g_fail = 0;
 static bool g_count_distinct = true; // false while running inputs that may repeat earlier ones
 
@@ -114,6 +116,22 @@ static void run_one(const char* fam, int kind, int n, const T* in, C c, const ch
     }
 }
 
+// default-argument variants: ascending order of ints expected
+static void run_defaults(int n, const int* in) {
+    static const char* fams[3] = { "best", "bn", "bnp" };
+    for (int f = 0; f < 3; ++f) for (int kind = 1; kind < 2; ++kind) {
+        int a[16]; std::copy(in, in + n, a);
+        if (f == 0) sn::best::sort(a, a + n); else if (f == 1) sn::bose_nelson::sort(a, a + n); else sn::bose_nelson_parameter::sort(a, a + n);
+        ++g_eval;
+        int e[16]; std::copy(in, in + n, e); std::sort(e, e + n);
+        bool ok = std::equal(a, a + n, e);
+        if (!ok && g_fail++ < 20) {
+            printf("FAIL fam=%s kind=%s n=%d cmp=default-arguments", fams[f], kind ? "dispatch" : "direct", n);
+            print_vec("in", in, n); print_vec("out", a, n); printf("\n");
+        }
+    }
+}
+
 template <typename T, typename C>
 static void run_all_entry(int n, const T* in, C c, const char* cname) {
     static const char* fams[3] = { "best", "bn", "bnp" };
@@ -141,6 +159,7 @@ int main(int argc, char** argv) {
             int a[16]; KV b[16];
             for (int i = 0; i < n; ++i) { a[i] = (mask >> i) & 1; b[i].key = a[i]; b[i].id = i; }
             run_all_entry(n, a, std::less<int>(), "less");
+            run_defaults(n, a);
             if (thorough || n <= 12) run_all_entry(n, a, std::greater<int>(), "greater");
             if (thorough || n <= 12) run_all_entry(n, b, KVLess(), "kvless");
         }
